@@ -8,6 +8,7 @@ Streams of C11.
   c11.disp   tokens  ops     tokens = comma list file:line:texthex; ops = string over n a l b B r 2 v i f N
              out = per-op results joined by ";" then "|" Val ":" Line ":" Nesting
   c11.setup  directive confighex    out = total | PANIC:… | TIMEOUT:… | DISAGREE:…   (search; the model's answer is "total")
+  c11.reload directive confighex ops   the same configuration loaded several times while its files change; out as c11.setup (search)
 -/
 namespace Driver.C11
 open Casket.Lexer Casket.Dispenser
@@ -110,7 +111,8 @@ def execJudge (f : List String) (out : String) : String :=
 def streams : List Driver.Stream := [
   { name := "c11.disp", model := dispModel, judge := dispJudge },
   { name := "c11.setup", model := fun _ => "total", judge := setupJudge },
-  { name := "c11.exec", model := execModel, judge := execJudge }
+  { name := "c11.exec", model := execModel, judge := execJudge },
+  { name := "c11.reload", model := fun _ => "total", judge := setupJudge }
 ]
 
 end Driver.C11
